@@ -18,6 +18,7 @@ import (
 	"math/big"
 	"os"
 	"path/filepath"
+	"sort"
 	"strings"
 
 	dsecp "github.com/decred/dcrd/dcrec/secp256k1/v4"
@@ -80,6 +81,7 @@ type input struct {
 	CustomR  string   `json:"customR,omitempty"`
 	CustomS  string   `json:"customS,omitempty"`
 	Why      string   `json:"why"`
+	Judge    bool     `json:"judge,omitempty"` // judge the signature with the executable secp256k1 inside Coq
 }
 
 func bigp(s *string) *big.Int {
@@ -368,6 +370,9 @@ type runner struct {
 	st   *cv.Stats
 	seen map[string]bool
 	cur  string
+
+	judgeEvery int
+	judgedKeys map[string]bool
 }
 
 func bucketLen(n int) string {
@@ -544,8 +549,13 @@ func (rn *runner) run(in *input) {
 		}
 		return "false"
 	}
-	term := fmt.Sprintf("CSign %d %s %s %s %s %s %s %s %s %d %s %s %s %s %s %s %s %s %s %s %s",
-		in.Mode, txTerm, coqZ(big.NewInt(in.Chain)), in.Kind,
+	judge := in.Judge || (in.Kind == kindKeyPair && rn.w.Count()%rn.judgeEvery == 0)
+	if judge && in.Kind == kindKeyPair {
+		st.Hit("signature judged by Secp256k1Exec")
+		rn.judgedKeys[in.Key] = true
+	}
+	term := fmt.Sprintf("CSign %d %s %s %s %s %s %s %s %s %s %s %d %s %s %s %s %s %s %s %s %s %s %s",
+		in.Mode, txTerm, coqZ(big.NewInt(in.Chain)), in.Kind, coqZ(new(big.Int).SetBytes(key)), b2(judge),
 		cv.CoqBytes(odig), coqZ(ov), coqZ(or), coqZ(os_), cv.CoqBytes(kaddr),
 		cls, coqOut(out), coqZ(iv), coqZ(ir), coqZ(is),
 		coqOut(pl), cv.CoqBytes(hash), b2(msgSame), b2(same2), b2(unmod), b2(finsam), recTerm)
@@ -758,7 +768,10 @@ func main() {
 		shards = 1
 	}
 	rn := &runner{w: cv.NewWriter(*out, "C01", header, "case", "mismatches", shards), st: st, seen: map[string]bool{},
-		cur: filepath.Join(*out, "current_case.json")}
+		cur: filepath.Join(*out, "current_case.json"), judgeEvery: 23, judgedKeys: map[string]bool{}}
+	if *tier == "thorough" {
+		rn.judgeEvery = 3
+	}
 
 	if *replay != "" {
 		raw, err := os.ReadFile(*replay)
@@ -810,14 +823,20 @@ func main() {
 			}
 		}
 		for _, k := range keys {
-			rn.run(baseInput(mode, 1337, k, "mode x key"))
+			in := baseInput(mode, 1337, k, "mode x key")
+			in.Judge = true
+			rn.run(in)
 		}
 	}
 
 	// --- 2. every integer field x every boundary magnitude (one at a time), modes cycling ---
 	n := 0
 	for fi := 0; fi < 6; fi++ {
-		for _, b := range bounds {
+		for bi, b := range bounds {
+			// quick: each boundary value in two of the six fields; thorough: the full cross product
+			if !thorough && bi%3 != fi%3 {
+				continue
+			}
 			modes := []int{n % 4}
 			if thorough {
 				modes = []int{0, 1, 2, 3}
@@ -956,6 +975,7 @@ func main() {
 					}
 					found++
 					zeroHits[fmt.Sprintf("%s:%d-bytes", what, len(x.Bytes()))]++
+					in.Judge = true
 					rn.run(in)
 				}
 			}
@@ -1023,6 +1043,18 @@ func main() {
 		rn.run(in)
 	}
 
+	// the address of every key whose signatures were judged inside Coq: library vs Secp256k1Exec
+	var jk []string
+	for k := range rn.judgedKeys {
+		jk = append(jk, k)
+	}
+	sort.Strings(jk)
+	for _, k := range jk {
+		kb, _ := hex.DecodeString(k)
+		rn.w.Add(fmt.Sprintf("CKey %s %s", coqZ(new(big.Int).SetBytes(kb)), cv.CoqBytes(libAddress(kb))),
+			map[string]interface{}{"key": k, "lib_address": hex.EncodeToString(libAddress(kb)), "why": "address of the key: library vs Secp256k1Exec"})
+		st.Hit("key address judged by Secp256k1Exec")
+	}
 	if err := rn.w.Flush(); err != nil {
 		panic(err)
 	}
